@@ -1,8 +1,9 @@
 import Driver.OpsCore
 import Driver.OpsEval
+import Driver.OpsRoads
 namespace Driver
 
-def handlers : List Handler := [handleCore, handleEval]
+def handlers : List Handler := [handleCore, handleEval, handleRoads]
 
 def step (st : St) (line : String) : St × String :=
   match (line.trimAscii.toString.splitOn " ").filter (· ≠ "") with
